@@ -494,6 +494,42 @@ def np_summaries():
             return flat[0]
         return SymArr(shape, flat)
 
+    def einsum(subscripts, *ops, **k):
+        """numpy.einsum for explicit and implicit output subscripts (no ellipsis): the sum over all indices that do not appear in the output"""
+        if not isinstance(subscripts, str) or "." in subscripts:
+            raise A.Undecided("einsum form %r" % (subscripts,))
+        spec = subscripts.replace(" ", "")
+        ins, out = spec.split("->") if "->" in spec else (spec, None)
+        terms = ins.split(",")
+        arrs = [SymArr.of(o) for o in ops]
+        if len(terms) != len(arrs):
+            raise ValueError("more operands provided to einstein sum function than specified in the subscripts string")
+        size = {}
+        for t, a in zip(terms, arrs):
+            if len(t) != a.ndim:
+                raise ValueError("einstein sum subscripts string contains too many subscripts for operand")
+            for ch, n_ in zip(t, a.shape):
+                if size.setdefault(ch, n_) != n_:
+                    raise ValueError("operands could not be broadcast together with remapped shapes")
+        if out is None:
+            allc = "".join(terms)
+            out = "".join(sorted(c for c in set(allc) if allc.count(c) == 1))
+        summed = [c for c in size if c not in out]
+        flat = []
+        for oi in itertools.product(*[range(size[c]) for c in out]):
+            env = dict(zip(out, oi))
+            tot = A.Rat.const(0)
+            for si in itertools.product(*[range(size[c]) for c in summed]):
+                env.update(zip(summed, si))
+                term = A.Rat.const(1)
+                for t, a in zip(terms, arrs):
+                    term = term * a.at(tuple(env[c] for c in t))
+                tot = tot + term
+            flat.append(tot)
+        if not out:
+            return flat[0]
+        return SymArr(tuple(size[c] for c in out), flat)
+
     def sort(a):
         vals = sorted(_as_int(v, 10 ** 9) for v in SymArr.of(a).flat)
         return SymArr((len(vals),), vals)
@@ -569,7 +605,7 @@ def np_summaries():
         "np.multiply.outer": lambda a, b: outer(a, b), "np.atleast_1d": lambda a: SymArr.of(a) if SymArr.of(a).ndim else SymArr.of(a).reshape(1),
         "np.reshape": reshape, "np.array": array, "np.asarray": array, "np.zeros": zeros, "np.ones": lambda s, *a, **k: SymArr.ones(s),
         "np.eye": lambda n, *a, **k: SymArr.eye(n), "np.identity": lambda n: SymArr.eye(n),
-        "np.dot": dot, "np.tensordot": tensordot, "np.kron": kron, "np.append": append, "np.bmat": bmat, "np.transpose": lambda a: SymArr.of(a).T,
+        "np.dot": dot, "np.tensordot": tensordot, "np.einsum": einsum, "np.kron": kron, "np.append": append, "np.bmat": bmat, "np.transpose": lambda a: SymArr.of(a).T,
         "np.ravel": lambda a, order="C": SymArr.of(a).flatten(order), "np.sort": sort, "np.copy": lambda a: SymArr.of(a).copy(),
         "np.add": lambda a, b: SymArr.of(a) + b, "np.sum": lambda a, axis=None: SymArr.of(a).sum(axis),
         "scipy.sparse.kron": kron, "scipy.sparse.eye": lambda n, *a, **k: SymArr.eye(n), "scipy.linalg.block_diag": block_diag,
